@@ -24,6 +24,13 @@ KF_C19_listed == TRUE
 KF_C08(ev) == FALSE
 KF_C08_id(ev) == "none"
 
+(* C03: the DWARF reader's `void` type is not among the canonical types of the translation unit's scope, so abidw emits    *)
+(* <type-decl name='void'> last (as a merely referenced type) while the ABIXML reader makes it an ordinary type of the scope *)
+(* and abilint emits it in sorted position: the element moves and the sequence ids are renumbered.  Classified as this       *)
+(* finding only if the document has the void type-decl, the two documents have the same lines once type ids are masked, and   *)
+(* the second abilint round is a fixpoint.                                                                                     *)
+KF_C03_void(ev) == ev.hasVoid /\ ev.sameLinesModuloIds /\ ev.h2 = ev.h3
+
 (* C04: FALSE unless listed *)
 KF_C04_unescaped(ev) == FALSE
 ====================================================================================================
